@@ -4,7 +4,9 @@ From Coq Require Export List Arith Bool.
 Export ListNotations.
 
 Inductive conn := CSrc (s : nat) | CDst (d : nat) | CDlq (q : nat) | CProc (p inst : nat).
-Inductive callk := KStart | KStopWait | KForce | KWait | KStop.
+Inductive callk := KStart | KStopWait | KForce | KWait | KStop
+| KShutdown.   (* the engine's graceful shutdown as conduit's runtime performs it: StopAll with the shutdown reason
+                  (v1: pipeline.ErrGracefulShutdown; v2: StopAll(force=false)), Wait, then the persister's Wait *)
 Inductive rcls := RNil | RNotRunning | RForce | RTimeout | RError.
 Inductive status := StRunning | StUserStopped | StSystemStopped | StDegraded | StRecovering | StOther.
 
@@ -33,7 +35,9 @@ Inductive ev :=
 | EBoot                                 (* harness: fresh services on the same store, lifecycle Init about to run *)
 | EBooted (st : status)                 (* harness: Init returned; pipeline status afterwards *)
 | ERestart (snap : snapshot)            (* harness: about to start the pipeline again; durable positions *)
-| EPanic.
+| EPanic
+| ESameProc.                            (* harness: no process restart in this case: the force-stopped pipeline is started
+                                           again through the SAME services (the connector instances of the ended run) *)
 
 Inductive prop := PC06 | PC12.
 
